@@ -4,11 +4,11 @@ import vlib
 from common import validate
 
 
-def bubble_tv(ctx, test, sub, module, cfg, label, args, timeout=1800, silent=True, race=False, sig=None):
+def bubble_tv(ctx, test, sub, module, cfg, label, args, timeout=1800, silent=True, race=False, sig=None, env=None):
     tf = ctx.path("bubble-%s.ndjson" % label.replace(" ", "-"))
     a = dict(args)
     a["out"] = tf
-    rc, o = ctx.run_vhb(test, a, timeout=timeout, race=race)
+    rc, o = ctx.run_vhb(test, a, timeout=timeout, race=race, env_extra=env)
     reps = ctx.harness_report(o, "bubble " + label)
     if rc != 0 or not reps:
         raise vlib.Trouble("bubble runner %s died (rc=%s):\n%s" % (test, rc, o[-3000:]))
